@@ -840,3 +840,17 @@ Lemma wit_repaired :
   s_end (session 4 wit_cfg flags_repaired wit_D true false 1 wit_env_idle
            (wit_ren ++ frame_bytes (mkFrame 0 1 4 9 []))) = SeErr.
 Proof. vm_compute. repeat split; reflexivity. Qed.
+
+(* Message.data as C10's session model has it ([msg_data]) is the caller's view of C04's
+   stream model ([Stream.caller_data]) for every delivery the read loop can produce (a buffered
+   reply never exceeds the limit: [dispatch_ok]) *)
+Lemma msg_data_is_caller_data : forall maxbuf fl h r,
+  (forall pl, r = RBuffered pl -> h_len h <= maxbuf) ->
+  msg_data maxbuf fl h r
+  = match caller_data maxbuf (data_checks_size_first fl) h r with Some b => OOk b | None => OErr end.
+Proof.
+  intros maxbuf fl h r Hb. unfold msg_data, caller_data. destruct r as [pl| |]; try reflexivity.
+  - specialize (Hb pl eq_refl). destruct (N.ltb_spec maxbuf (h_len h)); [lia|].
+    rewrite andb_false_r. reflexivity.
+  - destruct (data_checks_size_first fl && (maxbuf <? h_len h)); reflexivity.
+Qed.
